@@ -141,6 +141,23 @@ fn ann_push(line: &str) {
 fn ann_push_plain(line: &str) {
     ANN.lock().unwrap_or_else(|e| e.into_inner()).push(line.to_string());
 }
+/// Observed choices recorded since `obs_from` belong to the annotated line `ann_ix` (an operation performed from inside
+/// another one: the `poll c2` of `manual ondrop`), not to the operation in progress.
+fn ann_attach_obs(ann_ix: usize, obs_from: usize) {
+    let mut o = OBS.lock().unwrap_or_else(|e| e.into_inner());
+    if obs_from >= o.len() {
+        return;
+    }
+    let mine: Vec<String> = o.split_off(obs_from);
+    drop(o);
+    let mut a = ANN.lock().unwrap_or_else(|e| e.into_inner());
+    if let Some(l) = a.get_mut(ann_ix) {
+        for x in mine {
+            l.push(' ');
+            l.push_str(&x);
+        }
+    }
+}
 pub fn take_annotated() -> Vec<String> {
     std::mem::take(&mut *ANN.lock().unwrap_or_else(|e| e.into_inner()))
 }
@@ -278,6 +295,13 @@ pub struct InnerShared {
     /// layers leave a fresh clone behind with every call) is pending until `busy_until` (a saturated backend)
     pub recover_all: bool,
     pub busy_until: Option<tokio::time::Instant>,
+    /// `Inner::tied()`: the service ties in-flight work to its live handles (a client handle of a shared connection
+    /// that shuts down when the last handle goes away): `handles` counts the live `Inner` instances, `inflight` the
+    /// unfinished calls (caller, serial); when the last instance is dropped while calls are unfinished,
+    /// `inner_orphaned <c> <k>` is logged for each of them (once)
+    pub tied: bool,
+    pub handles: u64,
+    pub inflight: Vec<(usize, u64)>,
 }
 
 pub struct Inner {
@@ -297,8 +321,18 @@ impl Inner {
     }
     /// strict, with a readiness script and a per-instance recovery time after every call
     pub fn strict_rec(script: &str, recover_ms: u64, recover_all: bool) -> Inner {
-        let sh = InnerShared { strict: true, next_instance: 1, ready_script: script.chars().collect(), recover_ms, recover_all, busy_until: None };
+        let sh = InnerShared { strict: true, next_instance: 1, ready_script: script.chars().collect(), recover_ms, recover_all, busy_until: None, ..Default::default() };
         Inner { shared: Arc::new(Mutex::new(sh)), instance: 0, ready: false, label: "", recovering: None }
+    }
+    /// in-flight calls notice when the last handle of the service is dropped (see `InnerShared::tied`)
+    pub fn tied() -> Inner {
+        let i = Inner::new();
+        {
+            let mut sh = i.shared.lock().unwrap();
+            sh.tied = true;
+            sh.handles = 1;
+        }
+        i
     }
     pub fn labelled(label: &'static str) -> Inner {
         let mut i = Inner::new();
@@ -311,7 +345,28 @@ impl Clone for Inner {
         let mut sh = self.shared.lock().unwrap();
         let id = sh.next_instance;
         sh.next_instance += 1;
+        if sh.tied {
+            sh.handles += 1;
+        }
         Inner { shared: self.shared.clone(), instance: id, ready: false, label: self.label, recovering: None }
+    }
+}
+impl Drop for Inner {
+    fn drop(&mut self) {
+        let orphans = {
+            let mut sh = self.shared.lock().unwrap_or_else(|e| e.into_inner());
+            if !sh.tied {
+                return;
+            }
+            sh.handles = sh.handles.saturating_sub(1);
+            if sh.handles > 0 {
+                return;
+            }
+            std::mem::take(&mut sh.inflight)
+        };
+        for (c, k) in orphans {
+            log(format!("{}inner_orphaned {} {}", self.label, c, k));
+        }
     }
 }
 
@@ -323,6 +378,16 @@ pub struct InnerFut {
     out: Out,
     done: bool,
     label: &'static str,
+    /// `Inner::tied()`: where the call is registered as in flight
+    tied: Option<Arc<Mutex<InnerShared>>>,
+}
+impl InnerFut {
+    fn no_longer_in_flight(&mut self) {
+        if let Some(sh) = self.tied.take() {
+            let (c, k) = (self.c, self.k);
+            sh.lock().unwrap_or_else(|e| e.into_inner()).inflight.retain(|x| *x != (c, k));
+        }
+    }
 }
 impl Future for InnerFut {
     type Output = Result<Resp, IErr>;
@@ -349,6 +414,7 @@ impl Future for InnerFut {
             }
         }
         self.done = true;
+        self.no_longer_in_flight();
         let (c, k, l) = (self.c, self.k, self.label);
         match self.out {
             Out::Ok => {
@@ -373,6 +439,7 @@ impl Drop for InnerFut {
             run_drop_hook(self.c);
             log(format!("{}inner_drop {} {}", self.label, self.c, self.k));
         }
+        self.no_longer_in_flight();
     }
 }
 
@@ -405,11 +472,31 @@ fn run_drop_hook(c: usize) {
     let kv = Kv::parse(&ws);
     let Some(f) = req(c2, &kv) else { return };
     ann_push_plain(&format!("poll {}", c2));
+    let ann_ix = ANN.lock().unwrap_or_else(|e| e.into_inner()).len() - 1;
+    let obs_from = OBS.lock().unwrap_or_else(|e| e.into_inner()).len();
     let mut slot = Slot { fut: f, flag: Arc::new(Flag::new(false)), polled: true, keep: kv.u64("keep", 0) == 1, coop: false, burn: false };
     log_raw(format!("#fp {} {}", c2, now_ms()));
     let waker = Waker::from(slot.flag.clone());
     let mut cx = Context::from_waker(&waker);
-    match catch_unwind(AssertUnwindSafe(|| poll_slot(&mut slot.fut, &mut cx, false))) {
+    // the same step semantics as `Callers::poll`: a future that wakes itself while being polled is polled again
+    let flag = slot.flag.clone();
+    let polled = catch_unwind(AssertUnwindSafe(|| {
+        let mut rounds = 0;
+        loop {
+            flag.0.store(false, Ordering::SeqCst);
+            match poll_slot(&mut slot.fut, &mut cx, false) {
+                Poll::Ready(v) => return Poll::Ready(v),
+                Poll::Pending => {
+                    rounds += 1;
+                    if !flag.0.load(Ordering::SeqCst) || rounds >= SELF_WAKE_ROUNDS {
+                        return Poll::Pending;
+                    }
+                }
+            }
+        }
+    }));
+    ann_attach_obs(ann_ix, obs_from);
+    match polled {
         Ok(Poll::Pending) => PARKED.with(|p| p.borrow_mut().push((c2, slot))),
         Ok(Poll::Ready(v)) => {
             drop(slot);
@@ -464,12 +551,15 @@ impl tower::Service<Req> for Inner {
     fn call(&mut self, req: Req) -> InnerFut {
         let k = next_serial();
         let step = req.plan.lock().unwrap().pop_front().unwrap_or(Step { lat: 0, out: Out::Ok });
-        let (strict, rec) = {
+        let (strict, rec, tied) = {
             let mut sh = self.shared.lock().unwrap();
             if sh.recover_ms > 0 && sh.recover_all {
                 sh.busy_until = Some(tokio::time::Instant::now() + Duration::from_millis(sh.recover_ms));
             }
-            (sh.strict, if sh.recover_all { 0 } else { sh.recover_ms })
+            if sh.tied {
+                sh.inflight.push((req.c, k));
+            }
+            (sh.strict, if sh.recover_all { 0 } else { sh.recover_ms }, sh.tied)
         };
         if rec > 0 {
             self.recovering = Some(Box::pin(tokio::time::sleep(Duration::from_millis(rec))));
@@ -481,7 +571,7 @@ impl tower::Service<Req> for Inner {
         }
         self.ready = false;
         let sleep = if step.lat > 0 { Some(Box::pin(tokio::time::sleep(Duration::from_millis(step.lat)))) } else { None };
-        InnerFut { sleep, c: req.c, k, tag: req.tag, out: step.out, done: false, label: self.label }
+        InnerFut { sleep, c: req.c, k, tag: req.tag, out: step.out, done: false, label: self.label, tied: if tied { Some(self.shared.clone()) } else { None } }
     }
 }
 
